@@ -37,7 +37,12 @@ BUDGETS = {"quick": (48000, 90), "thorough": (2200000, 285)}
 
 
 def gen(seed, tier="quick"):
-    return G.gen_retry(seed, KNOBS)
+    scn = G.gen_retry(seed, KNOBS)
+    if scn["mode"] == "async" and (seed >> 7) % 5 == 0:
+        # the event loop keeps a clock of its own that does not advance while a callback blocks the loop (legal for
+        # an event loop; virtual-time loops do it): the deadline is defined on the monotonic clock, not on loop.time()
+        scn["cfg"]["loop_clock_lags"] = True
+    return scn
 
 
 def oracle(scn, trace):
